@@ -445,36 +445,44 @@ static void bk_pivot_rule_case(int n, int k)
     sym::expect("pivot rows lie inside the reduced matrix", pk >= k && pk < n && (is_1x1 || (pk1 > k && pk1 < n)), "rows " + std::to_string(pk) + "," + std::to_string(pk1));
     if (pk < k || pk >= n || (!is_1x1 && (pk1 <= k || pk1 >= n)))
         return;
-    // the reduced matrix after the call is the symmetric permutation the rule prescribes (and nothing else moved)
+    // the reduced matrix after the call is the symmetric permutation that brings the recorded rows to the pivot position (and
+    // nothing else moved): swap(k, pk), then for a 2x2 block swap(k+1, pk1) - the order the library's record encodes
     {
         std::vector<int> perm(n);
         for (int i = 0; i < n; i++)
             perm[i] = i;
-        if (is_1x1)
-            std::swap(perm[k], perm[pk]);
-        else
-        {
-            sym::expect("2x2 pivot keeps row k in place (version 1 of the interchange)", pk == k, "row " + std::to_string(pk) + " moved to k");
+        std::swap(perm[k], perm[pk]);
+        if (!is_1x1)
             std::swap(perm[k + 1], perm[pk1]);
-        }
         bool same = true;
         for (int j = k; j < n; j++)
             for (int i = j; i < n; i++)
                 same = same && same_entry(s.coeff(i, j), M(perm[i], perm[j]));
-        sym::expect("reduced matrix after the call = P A P' for the pivot permutation", same, "entries moved inconsistently");
+        sym::expect("reduced matrix after the call = P A P' for the recorded pivot permutation", same, "entries moved inconsistently with the recorded permutation");
     }
-    // reference rule
-    expr zero = sym::ctx().real_val(0);
+    if (!is_1x1 && pk != k)
+    {
+        // a 2x2 block that does not contain row k (another interchange strategy than Bunch-Kaufman's): its stability conditions
+        // are different ones and are not encoded here
+        sym::note("skipped", "2x2 block without row k: interchange strategy not encoded");
+        sym::witness("end-other-strategy");
+        return;
+    }
+    // Reference: the conditions under which each kind of pivot keeps element growth bounded (Bunch & Kaufman 1977), stated with
+    // NON-strict inequalities and for ANY row r attaining lambda, so that tie-breaking and boundary conventions of an
+    // implementation are not prescribed:
+    //   1x1 pivot a_kk          needs  lambda = 0  or  |a_kk| >= alpha lambda  or  |a_kk| sigma_r >= alpha lambda^2
+    //   1x1 pivot a_rr          needs  r attains lambda  and  |a_rr| >= alpha sigma_r
+    //   2x2 pivot on rows k, r  needs  r attains lambda > 0,  |a_kk| sigma_r <= alpha lambda^2  and  |a_rr| <= alpha sigma_r
+    // with sigma_r = max_{i >= k, i != r} |a_ir| over the WHOLE column r of the reduced matrix.
     Real lambda = sym::abs(M(k + 1, k));
     for (int i = k + 2; i < n; i++)
         lambda = sym::smax(lambda, sym::abs(M(i, k)));
     Real akk = sym::abs(M(k, k));
-    auto first_max = [&](int r) {
+    auto attains_max = [&](int r) {
         expr c = sym::btrue();
         for (int i = k + 1; i < n; i++)
-            if (i < r)
-                c = c && sym::lt(sym::abs(M(i, k)), sym::abs(M(r, k)));
-            else if (i > r)
+            if (i != r)
                 c = c && sym::le(sym::abs(M(i, k)), sym::abs(M(r, k)));
         return c;
     };
@@ -490,20 +498,21 @@ static void bk_pivot_rule_case(int n, int k)
         return sg;
     };
     expr lam0 = sym::le(lambda, Real(0));
-    expr keep = lam0 || sym::le(alpha * lambda, akk);
-    for (int r = k + 1; r < n; r++)
-        keep = keep || (first_max(r) && sym::le(alpha * lambda * lambda, akk * sigma_of(r)));
     if (is_1x1 && pk == k)
-        sym::check("1x1 pivot without interchange only when the Bunch-Kaufman rule says so", keep);
+    {
+        expr keep = lam0 || sym::le(alpha * lambda, akk);
+        for (int r = k + 1; r < n; r++)
+            keep = keep || (attains_max(r) && sym::le(alpha * lambda * lambda, akk * sigma_of(r)));
+        sym::check("1x1 pivot a_kk only under a Bunch-Kaufman growth condition", keep);
+    }
     else
     {
         int r = is_1x1 ? pk : pk1;
         Real sg = sigma_of(r), arr = sym::abs(M(r, r));
-        expr pre = !lam0 && sym::lt(akk, alpha * lambda) && first_max(r) && sym::lt(akk * sg, alpha * lambda * lambda);
         if (is_1x1)
-            sym::check("1x1 pivot a_rr only when the Bunch-Kaufman rule says so", pre && sym::le(alpha * sg, arr));
+            sym::check("1x1 pivot a_rr only under a Bunch-Kaufman growth condition", attains_max(r) && sym::le(alpha * sg, arr));
         else
-            sym::check("2x2 pivot only when the Bunch-Kaufman rule says so", pre && sym::lt(arr, alpha * sg));
+            sym::check("2x2 pivot only under the Bunch-Kaufman growth conditions", !lam0 && attains_max(r) && sym::le(akk * sg, alpha * lambda * lambda) && sym::le(arr, alpha * sg));
     }
     sym::witness("end");
 }
